@@ -35,6 +35,9 @@ enum_patterns(shape=None, numel_max=6, ndim_max=3, pool_max=3, tier="quick")
 patterns_for_shape(shape, tier="quick")           -> list of patterns with size() == shape
 all_shapes(numel_max, ndim_max, zero=False)
 fill_data(pattern, rng, special=True, dtype="float64", default=0, storage=None) -> recipe
+compatible(r1, r2, broadcast=False)  -> bool: the two patterns have a common index type (operands
+                                         of binary ops / where / equal / project / einsum indices
+                                         must be filtered with it; see "index types" below)
 with_default(recipe, default), signature(pattern)
 
 Counts (measured, `python -m vf.bounded.gen_pt [thorough]`):
@@ -507,6 +510,74 @@ def patterns_for_shape(shape: Sequence[int], tier: str = "quick") -> List[Dict[s
     out = chosen + extra
     _PFS_CACHE[key] = out
     return [json.loads(json.dumps(p)) for p in out]
+
+
+# ----------------------------------------------------------------------------- index types
+# The library is *typed*: index types  tau ::= n | tau x ... x tau | tau + ... + tau.  An axis e is a
+# pattern of type tau if: e is a PhysicalAxis (or unitAxis) of numel |tau| (dense, any tau); or tau is
+# a product and e the product of patterns of consecutive groups of its factors; or tau is a sum and
+# e = SumAxis(|tau_1..tau_{i-1}|, e_i, |tau_{i+1}..tau_k|) with e_i a pattern of tau_i.  Operations
+# that combine two tensors (binary ops, where, equal, allclose, project, einsum on a shared index)
+# are specified only when the co-indexed axes have a common type ("well-typed"); on other pairs
+# the library warns "indicates index type mismatch".  `compatible` decides the existence of a
+# common type without using the library.
+def _is_dense_axis(a) -> bool:
+    return a[0] in ("P", "P?") or (a[0] == "*" and not a[1])
+
+
+def _numel_x(a, pool) -> int:
+    return a[1] if a[0] == "P?" else ax_numel(a, pool)
+
+
+def ax_compatible(e, pe, f, pf) -> bool:
+    """do the axis recipes e (over pool pe) and f (over pool pf) have a common index type?"""
+    ne, nf = _numel_x(e, pe), _numel_x(f, pf)
+    if ne != nf: return False
+    if _is_dense_axis(e) or _is_dense_axis(f): return True
+    if e[0] == "*" and f[0] == "*":
+        if ne == 0: return True
+        es, fs = list(e[1]), list(f[1])
+        while es and fs:
+            e9, f9 = es.pop(), fs.pop()
+            m, n = _numel_x(e9, pe), _numel_x(f9, pf)
+            if m == n:
+                if not ax_compatible(e9, pe, f9, pf): return False
+            elif m == 0 or n == 0:
+                return False
+            elif m < n:
+                if n % m or f9[0] not in ("P", "P?"): return False
+                fs.append(["P?", n // m])
+            else:
+                if m % n or e9[0] not in ("P", "P?"): return False
+                es.append(["P?", m // n])
+        return not es and not fs
+    if e[0] == "+" and f[0] == "+":
+        if e[1] == f[1] and e[3] == f[3]:
+            return ax_compatible(e[2], pe, f[2], pf)
+        me, mf = _numel_x(e[2], pe), _numel_x(f[2], pf)
+        return e[1] + me <= f[1] or f[1] + mf <= e[1]
+    return False
+
+
+def compatible(r1, r2, broadcast: bool = False) -> bool:
+    """True iff the two recipes/patterns have the same virtual shape and a common index type per
+       dimension.  broadcast=True: align from the right; a missing dimension or a unitAxis is
+       compatible with anything (torch broadcasting as implemented by the library)."""
+    a1, a2 = r1["vaxes"], r2["vaxes"]
+    if not broadcast:
+        if len(a1) != len(a2): return False
+        return all(ax_compatible(e, r1["pool"], f, r2["pool"]) for e, f in zip(a1, a2))
+    for e, f in zip(reversed(a1), reversed(a2)):
+        ne, nf = ax_numel(e, r1["pool"]), ax_numel(f, r2["pool"])
+        if ne == nf:
+            if not ax_compatible(e, r1["pool"], f, r2["pool"]): return False
+        elif ne == 1:
+            if e != UNIT: return False      # a size-1 axis that is not unitAxis is not broadcast by the library
+        elif nf == 1:
+            if f != UNIT: return False
+        else:
+            return False
+    return True
 
 
 # ----------------------------------------------------------------------------- data
